@@ -9,23 +9,6 @@ import (
 // C15 (dispatch) / C01 (pass-through): the real tell and handleRecv of a string multiplexer with
 // two open channels over a recording inner swarm.
 
-type vSentM struct {
-	dst  vAddr
-	data []byte
-}
-
-type vInnerRec struct{ sent *[]vSentM }
-
-func (s vInnerRec) Tell(ctx context.Context, dst vAddr, v p2p.IOVec) error {
-	*s.sent = append(*s.sent, vSentM{dst: dst, data: p2p.VecBytes(nil, v)})
-	return nil
-}
-func (s vInnerRec) Receive(ctx context.Context, fn func(p2p.Message[vAddr])) error { return nil }
-func (s vInnerRec) LocalAddrs() []vAddr                                            { return []vAddr{0} }
-func (s vInnerRec) MTU() int                                                       { return 100 }
-func (s vInnerRec) Close() error                                                   { return nil }
-func (s vInnerRec) ParseAddr(data []byte) (vAddr, error)                           { return 0, nil }
-
 type vGotM struct {
 	src, dst vAddr
 	payload  []byte
